@@ -151,7 +151,7 @@ impl PointCloud {
             if !n.is_element() {
                 continue;
             }
-            let ns = n.lookup_prefix(n.tag_name().namespace().unwrap_or_default());
+            let ns = xml::prefix(&n);
             let tag = n.tag_name().name();
             let root_ns = n.document().root_element().tag_name().namespace();
             let name = if n.tag_name().namespace() == root_ns {
